@@ -364,6 +364,7 @@ func runCheck(id, tier, repo, keep string, writeEvidence bool) int {
 	var failed []oblReport
 	var slow []string
 	exit := 0
+	undecided := 0
 	unitFailed := map[*Unit]bool{}
 	for _, o := range all {
 		if !o.ExpectSat && !o.Holds() {
@@ -411,8 +412,16 @@ func runCheck(id, tier, repo, keep string, writeEvidence bool) int {
 			fmt.Printf("KNOWN-FINDING: property=%s %s [%s]\n", id, f.What, o.Name)
 			continue
 		}
-		violations++
 		replay := writeReplay(eng, id, o, dir)
+		if !replay.Confirmed && driftedObligation(eng, o.Name) {
+			// part of this function's contract no longer resolves against the code (a renamed
+			// local, a moved loop): what is left of it is too weak to carry the proof, and a failed
+			// proof without a failing input decides nothing. Reported as undecided, never as a violation.
+			fmt.Printf("UNDECIDED property=%s obligation=%q verdict=%s (contract drift in this function: see CONTRACT-DRIFT below)\n", id, o.Name, o.Res.Verdict)
+			undecided++
+			continue
+		}
+		violations++
 		suffix := ""
 		if !replay.Confirmed {
 			suffix = " no-failing-input-found"
@@ -463,7 +472,7 @@ func runCheck(id, tier, repo, keep string, writeEvidence bool) int {
 			fmt.Printf("CONTRACT-DRIFT property=%s %s: %s\n", id, k, eng.drift[k])
 		}
 		if violations+boundedViolations == 0 && exit == 0 {
-			fmt.Printf("ENGINE-ERROR property=%s contract drift and no violation found: the contracts must be brought in line with the code\n", id)
+			fmt.Printf("ENGINE-ERROR property=%s contract drift and no violation found (%d obligations undecided): the contracts must be brought in line with the code\n", id, undecided)
 			exit = 2
 		}
 	}
@@ -555,6 +564,25 @@ func relFiles(fs []string) []string {
 	}
 	sort.Strings(out)
 	return out
+}
+
+// driftedObligation: does the obligation belong to a function whose contract drifted?
+func driftedObligation(eng *Engine, name string) bool {
+	eng.driftMu.Lock()
+	defer eng.driftMu.Unlock()
+	for k := range eng.drift {
+		fn := k
+		if i := strings.Index(fn, " / "); i >= 0 {
+			fn = fn[:i]
+		}
+		if j := strings.LastIndex(fn, " > "); j >= 0 {
+			fn = fn[j+3:]
+		}
+		if strings.Contains(name, fn+" / ") {
+			return true
+		}
+	}
+	return false
 }
 
 func round3(f float64) float64 { return float64(int(f*1000+0.5)) / 1000 }
